@@ -834,7 +834,9 @@ def oracle_probe_discipline(case, impl):
                 # without loss recovery, and a probe is given up (popped, re-segmented at a proven size) after
                 # `mtu_probe_max_retransmissions` of those
                 over_count += 1
-                if rto_only and over_count > 1 + probe_retx:
+                # (once the remote has closed - LastAck - nothing is segmented any more, by design; an outstanding
+                # probe can then no longer be re-segmented: not judged)
+                if rto_only and over_count > 1 + probe_retx and ev["fp"].get("st", "").startswith(("Established", "FinWait1")):
                     hits.append({"sig": {"oracle": "probe", "what": "oversized_segment_retransmitted_like_an_ordinary_one"},
                                  "text": f"data seq {d['seq']} ({d['plen']} bytes, larger than the proven segment size {max(proven, mss_now)}) is on the wire for the {over_count}th time at that size: a segment above the proven size must be a probe, and a probe is re-segmented after {probe_retx} retransmission(s) - on a path that does not carry this size the data is never delivered"})
                     return hits
